@@ -195,7 +195,7 @@ CHECKS = {
     "C10": dict(
         pkg="c10", race=False, shards=(8, 16), timeout_s=(600, 3600),
         technique="quiescence-invariant monitor in a synctest bubble under forced schedules (releases injected at schedule points via instrumented delegate, verif hooks and an actor goroutine)",
-        level_text="Every delegate attempt must carry a caller's own context (a hand-off evaluated for another context is evaluated for another caller). Liveness restated as safety at quiescence: after every release, when all goroutines of the bubble are durably blocked and virtual time "
+        level_text="Further points: the woken winner's context ends at its wake-up while the losers go back to sleep (blocking / deadline); a release after one more caller was turned away at a backlog that holds exactly its maximum. Every delegate attempt must carry a caller's own context (a hand-off evaluated for another context is evaluated for another caller). Liveness restated as safety at quiescence: after every release, when all goroutines of the bubble are durably blocked and virtual time "
                    "has not moved, 'capacity free and a caller still blocked' is a violation. The release is injected at: before arrival, after the "
                    "caller's 1st/2nd failed delegate attempt, between backlog push and select (verif hooks), when asleep, at the failed retry of a woken "
                    "loser, while unblock hands to a waiter that is being cancelled / timing out at the same instant, and with the broadcast delayed after "
@@ -205,8 +205,8 @@ CHECKS = {
                    "stuck state (no progress for two watchdog periods, capacity free, workers inside Acquire) is a violation. Exploration of forced interleavings, not all schedules.",
         require=["scenarios", "quiescent_snapshots", "scenarios_reaching_their_schedule_point", "snapshots_with_blocked_callers",
                  "reached/after-failed-attempt-1", "reached/queue.after_push", "reached/queue.before_push", "reached/loser-retry",
-                 "reached/handoff-vs-cancel", "reached/handoff-vs-timeout", "reached/next-in-line-cancelled-but-not-evicted", "reached/asleep", "reached/parallel-releases", "reached/slow-inner-release", "reached/helper-before-lock", "stress_runs", "stress_grants"],
-        rule="scenario grid = limiter kind (7) x release point (10-13) x capacity {1,2} x waiters {1,2,3} x outcome (3); quick runs the grid 3 times, thorough 1500 "
+                 "reached/handoff-vs-cancel", "reached/handoff-vs-timeout", "reached/next-in-line-cancelled-but-not-evicted", "reached/asleep", "reached/parallel-releases", "reached/slow-inner-release", "reached/helper-before-lock", "reached/winner-cancelled-at-wakeup", "reached/release-after-a-rejection-at-the-full-backlog", "stress_runs", "stress_grants"],
+        rule="scenario grid = limiter kind (7) x release point (12-14) x capacity {1,2} x waiters {1,2,3} x outcome (3); quick runs the grid 3 times, thorough 1500 "
              "times with PRNG pause budgets / strategy kind / targeted waiter; non-trivial = schedule point reached and some waiter granted; distinct = distinct scenario tuples.",
         assumptions=COMMON_ASSUME + ["sync.Cond.Wait, channel ops and select are durably blocking in a bubble, sync.Mutex is not (a caller waiting for a mutex counts as running)",
                                      "pauses at schedule points are bounded yields, never waits: they cannot deadlock an implementation that holds a lock across the window"],
